@@ -110,6 +110,50 @@ def make_points(exe, r, group, count, radius, dbg=True, lin_only=("zero", "unit"
     return X, pts, tags
 
 
+def approx_requests(exe, r, group, n, dbg):
+    """isApprox / == on pairs at controlled tangent distance, and on tangents"""
+    out = []
+    G = gen.GROUPS[group]
+    for _ in range(n):
+        eps = r.choice([None, gen.EPS, 1e-8, 1e-3])
+        e = gen.EPS if eps is None else eps
+        scale = r.choice([0.0, 0.01, 0.5, 0.999, 1.001, 2.0, 100.0])
+        X, tags = gen.element(r, group, norm="exact")
+        delta = []
+        for kind, k in G["tan"]:
+            d, _ = gen.direction(r, k if kind != "ang1" else 1)
+            delta += [scale * e * x for x in d]
+        rc, o, err = vlib.run_lines(exe, [gen.req(dbg, "o", group, "rplus", 0, X + delta)])
+        if not o or not o[0].startswith("ok"):
+            continue
+        Y = [gen.of_hex(x) for x in o[0].split()[1:]]
+        tg = ["isApprox", "eps:%r" % eps, "dist:%g" % scale] + tags
+        for A, B in ((X, Y), (Y, X), (X, X)):
+            out.append((gen.req(dbg, "o", group, "isApprox", 0, A + B + ([] if eps is None else [eps])), tg))
+        Xn = None
+        i = 0
+        for kind, k in G["rep"]:
+            if kind == "quat":
+                Xn = X[:i] + [-c for c in X[i:i + 4]] + X[i + 4:]
+            i += k
+        if Xn:
+            out.append((gen.req(dbg, "o", group, "isApprox", 0, X + Xn + ([] if eps is None else [eps])), tg + ["q/-q"]))
+        # tangents
+        a, ta = gen.tangent(r, group, angle_only=["zero", "small", "low", "generic"], lin_only=["zero", "tiny", "unit", "large"])
+        mode = r.choice(["abs", "rel", "same"])
+        if mode == "abs":
+            a = [x * e * r.choice([0.1, 0.5, 2.0]) for x in a]
+            b = [x + scale * e * r.uniform(-1, 1) for x in a]
+        elif mode == "rel":
+            b = [x * (1 + scale * e * r.uniform(-1, 1)) for x in a]
+        else:
+            b = list(a)
+        tg = ["t_isApprox", "eps:%r" % eps, "dist:%g" % scale, mode] + ta
+        for A, B in ((a, b), (b, a), (a, a)):
+            out.append((gen.req(dbg, "o", group, "t_isApprox", 0, A + B + ([] if eps is None else [eps])), tg))
+    return out
+
+
 def algo_requests(exe, r, group, n, dbg, ops=("interp_slerp", "interp_cubic", "interp_smooth", "phi", "avg_bi", "avg_w", "avg_fl", "avg_fr", "decasteljau")):
     out = []
     G = gen.GROUPS[group]
